@@ -181,10 +181,39 @@ package api
 //@   domain respnbody(ctx) == 0
 //@   modifies ctx
 //@   let b = reqbody(ctx)
+//@   let raw = jstr(b, "raw_suite")
+//@   let sec = jstr(b, "secret")
+//@   let rc = mapget(knownSuites, raw)
+//@   let cn = hexv(jstr(b, "input.counter_hex"))
+//@   let ch = hexv(jstr(b, "input.challenge_hex"))
+//@   let pw = hexv(jstr(b, "input.password_hex"))
+//@   let se = hexv(jstr(b, "input.session_info_hex"))
+//@   let ts = hexv(jstr(b, "input.timestamp_hex"))
+//@   let sIC = jbool(b, "suite.include_counter")
+//@   let sIQ = jbool(b, "suite.include_challenge")
+//@   let sIP = jbool(b, "suite.include_password")
+//@   let sIS = jbool(b, "suite.include_session")
+//@   let sIT = jbool(b, "suite.include_timestamp")
+//@   let sH = algoof(jstr(b, "suite.hash_function"))
+//@   let sD = jnum(b, "suite.code_digits")
+//@   let sQ = jnum(b, "suite.challenge_format")
+//@   let sP = jnum(b, "suite.password_hash")
+//@   let sus = usablex(sD, sH, sIP, sP, sIT, jnum(b, "suite.timestep"), sIQ, sQ)
+//@   let rawadm = usable(rc) && admx(rc.IncludeCounter, rc.IncludeChallenge, rc.IncludePassword, rc.IncludeSession, rc.IncludeTimestamp, rc.Challenge, rc.PasswordHash,
+//@ |   len(cn), len(ch), len(pw), len(se), len(ts))
+//@   let rawmsg = ocm5(raw, rc.IncludeCounter, rc.IncludeChallenge, rc.IncludePassword, rc.IncludeSession, rc.IncludeTimestamp, cn, ch, pw, se, ts)
+//@   let stradm = sus && admx(sIC, sIQ, sIP, sIS, sIT, sQ, sP, len(cn), len(ch), len(pw), len(se), len(ts))
+//@   let strmsg = ocm5("", sIC, sIQ, sIP, sIS, sIT, cn, ch, pw, se, ts)
+//@   let okreq = ispost(ctx) && jok(b, ocraGenerateReq) && !ocrabad(b) && ocrahexok(b)
 //@   ensures[method] !ispost(ctx) ==> respstatus(ctx) == 405
 //@   ensures[badjson] ispost(ctx) && !jok(b, ocraGenerateReq) ==> respstatus(ctx) == 400
 //@   ensures[missing] ispost(ctx) && jok(b, ocraGenerateReq) && ocrabad(b) ==> respstatus(ctx) == 400
 //@   ensures[badhex] ispost(ctx) && jok(b, ocraGenerateReq) && !ocrabad(b) && jstr(b, "raw_suite") != "" && trim(jstr(b, "raw_suite")) != "" && !ocrahexok(b) ==> respstatus(ctx) == 400
+//@   ensures[mapsraw] okreq && maphas(knownSuites, raw) && (jhas(b, "suite") ==> sus) && b32ok(sec) && rawadm ==> respstatus(ctx) == 200 &&
+//@ |   jstr(respbody(ctx), "suite") == raw && jstr(respbody(ctx), "code") == otpcode(rc.Hash, b32key(sec), rawmsg, rc.Digits)
+//@   ensures[mapsstruct] okreq && raw == "" && b32ok(sec) && stradm ==> respstatus(ctx) == 200 &&
+//@ |   jstr(respbody(ctx), "code") == otpcode(sH, b32key(sec), strmsg, sD)
+//@   ensures[fails] okreq && (raw == "" || maphas(knownSuites, raw)) && (jhas(b, "suite") ==> sus) && !(b32ok(sec) && (raw != "" ? rawadm : stradm)) ==> respstatus(ctx) == 500
 //@   ensures[status] respstatus(ctx) == 200 || respstatus(ctx) == 400 || respstatus(ctx) == 405 || respstatus(ctx) == 500
 //@   ensures[once] respnbody(ctx) == 1
 
@@ -193,9 +222,37 @@ package api
 //@   domain respnbody(ctx) == 0
 //@   modifies ctx
 //@   let b = reqbody(ctx)
+//@   let raw = jstr(b, "raw_suite")
+//@   let sec = jstr(b, "secret")
+//@   let rc = mapget(knownSuites, raw)
+//@   let cn = hexv(jstr(b, "input.counter_hex"))
+//@   let ch = hexv(jstr(b, "input.challenge_hex"))
+//@   let pw = hexv(jstr(b, "input.password_hex"))
+//@   let se = hexv(jstr(b, "input.session_info_hex"))
+//@   let ts = hexv(jstr(b, "input.timestamp_hex"))
+//@   let sIC = jbool(b, "suite.include_counter")
+//@   let sIQ = jbool(b, "suite.include_challenge")
+//@   let sIP = jbool(b, "suite.include_password")
+//@   let sIS = jbool(b, "suite.include_session")
+//@   let sIT = jbool(b, "suite.include_timestamp")
+//@   let sH = algoof(jstr(b, "suite.hash_function"))
+//@   let sD = jnum(b, "suite.code_digits")
+//@   let sQ = jnum(b, "suite.challenge_format")
+//@   let sP = jnum(b, "suite.password_hash")
+//@   let sus = usablex(sD, sH, sIP, sP, sIT, jnum(b, "suite.timestep"), sIQ, sQ)
+//@   let rawadm = usable(rc) && admx(rc.IncludeCounter, rc.IncludeChallenge, rc.IncludePassword, rc.IncludeSession, rc.IncludeTimestamp, rc.Challenge, rc.PasswordHash,
+//@ |   len(cn), len(ch), len(pw), len(se), len(ts))
+//@   let rawmsg = ocm5(raw, rc.IncludeCounter, rc.IncludeChallenge, rc.IncludePassword, rc.IncludeSession, rc.IncludeTimestamp, cn, ch, pw, se, ts)
+//@   let stradm = sus && admx(sIC, sIQ, sIP, sIS, sIT, sQ, sP, len(cn), len(ch), len(pw), len(se), len(ts))
+//@   let strmsg = ocm5("", sIC, sIQ, sIP, sIS, sIT, cn, ch, pw, se, ts)
+//@   let okreq = ispost(ctx) && jok(b, ocraValidateReq) && !ocrabad(b) && trim(jstr(b, "code")) != "" && ocrahexok(b)
 //@   ensures[method] !ispost(ctx) ==> respstatus(ctx) == 405
 //@   ensures[badjson] ispost(ctx) && !jok(b, ocraValidateReq) ==> respstatus(ctx) == 400
 //@   ensures[missing] ispost(ctx) && jok(b, ocraValidateReq) && (ocrabad(b) || trim(jstr(b, "code")) == "") ==> respstatus(ctx) == 400
+//@   ensures[mapsraw] okreq && maphas(knownSuites, raw) && (jhas(b, "suite") ==> sus) ==> respstatus(ctx) == 200 && (jbool(respbody(ctx), "valid") <==>
+//@ |   (b32ok(sec) && rawadm && len(jstr(b, "code")) == rc.Digits && jstr(b, "code") == otpcode(rc.Hash, b32key(sec), rawmsg, rc.Digits)))
+//@   ensures[mapsstruct] okreq && raw == "" && sus ==> respstatus(ctx) == 200 && (jbool(respbody(ctx), "valid") <==>
+//@ |   (b32ok(sec) && stradm && len(jstr(b, "code")) == sD && jstr(b, "code") == otpcode(sH, b32key(sec), strmsg, sD)))
 //@   ensures[status] respstatus(ctx) == 200 || respstatus(ctx) == 400 || respstatus(ctx) == 405 || respstatus(ctx) == 500
 //@   ensures[once] respnbody(ctx) == 1
 
